@@ -50,7 +50,7 @@ def counted(accessor, budget):
     One long-lived proxy object is kept per (shape, dtype, strides) and refilled in place, so that consecutive calls
     pass the same array object with different contents (see gens.pooled)."""
     import os
-    key = (accessor.shape, accessor.dtype.str, accessor.strides)
+    key = (accessor.shape, accessor.dtype.str, accessor.strides, bool(accessor.flags.writeable))
     view = None if os.environ.get("VERIF_NO_POOL") else _PROXIES.get(key)
     if view is None:
         if accessor.flags.c_contiguous:
@@ -67,7 +67,9 @@ def counted(accessor, budget):
         _PROXIES[key] = view
     else:
         view._counter = None
+        view.setflags(write=True)
         numpy.copyto(view, accessor)
+    view.setflags(write=bool(accessor.flags.writeable))
     counter = _Counter(budget)
     view._counter = counter
     return view, counter
